@@ -196,6 +196,9 @@ pub fn judge(text: &str, var: &Opts) -> Result<Result<Verdict, (String, String, 
     };
     let e2 = match emit_with(text, var) {
         Ok(s) => s,
+        Err(BuildErr::Analyze(v)) if v.iter().any(|m| m.contains("panic inside")) => {
+            return Err("the emitter panics under the variant options (C11's subject)".into());
+        }
         Err(e) => return fail("variant-rejected", format!("the same source is rejected under {}: {e:?}", var.describe()), &e0, ""),
     };
     let mut classes = vec![];
@@ -219,8 +222,9 @@ pub fn judge(text: &str, var: &Opts) -> Result<Result<Verdict, (String, String, 
         if var.newline == 2 {
             // every line ending is CRLF
             let bare = e2.as_bytes().iter().enumerate().filter(|(i, c)| **c == b'\n' && (*i == 0 || e2.as_bytes()[*i - 1] != b'\r')).count();
-            if bare > 0 && !text.contains('\r') {
-                return fail("newline-style/mixed", format!("newline_style=windows leaves {bare} bare line feeds"), &e1, &e2);
+            if bare > 0 {
+                // embedded / verbatim text keeps its own line feeds: stated by no clause of the property
+                classes.push("windows_output_with_bare_lf".into());
             }
         }
     }
@@ -240,26 +244,51 @@ pub fn judge(text: &str, var: &Opts) -> Result<Result<Verdict, (String, String, 
     let has_comments = !comments(&t0).is_empty();
     if var.expand_inside != base.expand_inside {
         classes.push("expand_inside".into());
-        match hunks(&c0, &c2) {
-            None => classes.push("expand_diff_too_large".into()),
-            Some(hs) => {
-                for (a, b) in &hs {
-                    if !a.iter().any(|t| *t == "inside") {
-                        return fail(
-                            "expand-inside/other-change",
-                            format!("expand_inside_operation changes tokens where no `inside` stands: `{}` became `{}`", a.join(" "), b.join(" ")),
-                            &e0,
-                            &e2,
-                        );
-                    }
-                }
-                if !hs.is_empty() {
-                    classes.push("expand_inside_rewrote".into());
-                }
-                if c2.iter().any(|t| *t == "inside") {
-                    return fail("expand-inside/left-over", "expand_inside_operation leaves an `inside` operator in the text".into(), &e0, &e2);
+        // statement granularity: split at `;`, the statements that differ must carry an
+        // `inside` in the unexpanded text, and nothing may appear or disappear
+        let split = |c: &[&str]| -> Vec<Vec<String>> {
+            let mut out = vec![vec![]];
+            for t in c {
+                out.last_mut().unwrap().push(t.to_string());
+                if *t == ";" {
+                    out.push(vec![]);
                 }
             }
+            out
+        };
+        let (s0, s2) = (split(&c0), split(&c2));
+        if c0.iter().any(|t| *t == "case") {
+            // the option also rewrites every case statement into `case (1'b1)` with `==?`
+            // conditions: no statement-wise correspondence; behaviour is compared instead
+            classes.push("expand_rewrites_case_statement".into());
+        } else if s0.len() != s2.len() {
+            return fail(
+                "expand-inside/other-change",
+                format!("expand_inside_operation changes the number of statements ({} vs {})", s0.len(), s2.len()),
+                &e0,
+                &e2,
+            );
+        }
+        let mut rewrote = false;
+        let pairs: Vec<(&Vec<String>, &Vec<String>)> = if c0.iter().any(|t| *t == "case") { vec![] } else { s0.iter().zip(&s2).collect() };
+        for (a, b) in pairs {
+            if a != b {
+                rewrote = true;
+                if !a.iter().any(|t| t == "inside") {
+                    return fail(
+                        "expand-inside/other-change",
+                        format!("expand_inside_operation changes a statement without `inside`: `{}` became `{}`", a.join(" "), b.join(" ")),
+                        &e0,
+                        &e2,
+                    );
+                }
+            }
+        }
+        if rewrote {
+            classes.push("expand_inside_rewrote".into());
+        }
+        if c2.iter().any(|t| *t == "inside") {
+            return fail("expand-inside/left-over", "expand_inside_operation leaves an `inside` operator in the text".into(), &e0, &e2);
         }
     } else if c0 != c2 {
         let hs = hunks(&c0, &c2).unwrap_or_default();
@@ -340,6 +369,12 @@ fn design_case(d: &mut Draw, cfg: &GenCfg, cycles: usize) -> Outcome {
     if var == Opts::default() {
         return Outcome::skip("variant equals the default options");
     }
+    // the shape of the known emitter finding (exclusive range bound): kept out, shown at a low rate
+    let k6 = crate::suspects::suspects(&g.design).contains(&"exclusive-range-bound-widens-comparison");
+    let show_known = d.chance(1, 10);
+    if k6 && var.expand_inside && !show_known {
+        return Outcome::skip("excluded: design contains the shape of known finding exclusive-range-bound-widens-comparison");
+    }
     let stim = gen_stimulus(d, &g.design, cycles);
     let v = match judge(&text, &var) {
         Err(why) => return Outcome::skip(why),
@@ -372,7 +407,7 @@ fn design_case(d: &mut Draw, cfg: &GenCfg, cycles: usize) -> Outcome {
                                 continue;
                             }
                             return Outcome::fail(
-                                "expand-inside/behaviour",
+                                if k6 { "expand-inside/exclusive-range-bound-widens-comparison" } else { "expand-inside/behaviour" },
                                 format!("output {} after step {si}: {} with `inside`, {} with the expansion", stim.outputs[oi].name, x, y),
                                 json!({"veryl": text, "variant": var.describe(), "sv_default": v.base_sv, "sv_variant": v.var_sv,
                                        "stimulus": stim.steps.iter().map(|s| json!({"reset": s.reset, "inputs": s.values.iter().map(|v| format!("{v:x}")).collect::<Vec<_>>()})).collect::<Vec<_>>()}),
@@ -414,20 +449,96 @@ fn corpus_case(d: &mut Draw, files: &[(String, String)]) -> Outcome {
     }
 }
 
+/// Reproducer of a listed finding: `{veryl, strip_comments, newline, indent_width, max_width, vertical_align, expand_inside}`.
+fn reproducer(payload: &serde_json::Value) -> Outcome {
+    let text = payload.get("veryl").and_then(|v| v.as_str()).unwrap_or("").to_string();
+    let b = |k: &str, d: bool| payload.get(k).and_then(|v| v.as_bool()).unwrap_or(d);
+    let n = |k: &str, d: u64| payload.get(k).and_then(|v| v.as_u64()).unwrap_or(d);
+    let var = Opts {
+        strip_comments: b("strip_comments", false),
+        newline: n("newline", 0) as u8,
+        indent_width: n("indent_width", 4) as usize,
+        max_width: n("max_width", 120) as usize,
+        vertical_align: b("vertical_align", true),
+        expand_inside: b("expand_inside", false),
+    };
+    match judge(&text, &var) {
+        Err(why) => Outcome::skip(why),
+        Ok(Err((sig, msg, input))) => Outcome::fail(sig, msg, input),
+        Ok(Ok(v)) => {
+            if var.expand_inside {
+                // behaviour of the two texts on a fixed pseudo-random stimulus
+                let run = |sv: &str| -> Result<(Vec<String>, Vec<Vec<vsv::Bv>>), vsv::Unsupported> {
+                    let mut sim = Sim::from_sv(&[sv], "prj_Top")?;
+                    let ins: Vec<(String, usize)> = sim.ports().iter().filter(|p| p.dir == vsv::ast::Dir::Input).map(|p| (p.name.clone(), p.width)).collect();
+                    let outs: Vec<String> = sim.ports().iter().filter(|p| p.dir == vsv::ast::Dir::Output).map(|p| p.name.clone()).collect();
+                    let mut rows = vec![];
+                    let mut s = 99u64;
+                    for _ in 0..64 {
+                        for (n, w) in &ins {
+                            s = s.wrapping_mul(6364136223846793005).wrapping_add(1442695040888963407);
+                            sim.set(n, &vsv::Bv::from_u64(s >> 20, (*w).min(64), false))?;
+                        }
+                        sim.settle()?;
+                        rows.push(outs.iter().map(|o| sim.get(o).unwrap()).collect());
+                    }
+                    Ok((outs, rows))
+                };
+                if let (Ok((outs, a)), Ok((_, b))) = (run(&v.base_sv), run(&v.var_sv)) {
+                    for (si, (ra, rb)) in a.iter().zip(&b).enumerate() {
+                        for (oi, (x, y)) in ra.iter().zip(rb).enumerate() {
+                            if x != y && !x.has_xz() && !y.has_xz() {
+                                let key = payload.get("key").and_then(|k| k.as_str()).unwrap_or("expand-inside/behaviour");
+                                return Outcome::fail(
+                                    key,
+                                    format!("output {} at vector {si}: {x} with `inside`, {y} with the expansion", outs[oi]),
+                                    json!({"veryl": text, "sv_default": v.base_sv, "sv_variant": v.var_sv}),
+                                );
+                            }
+                        }
+                    }
+                }
+            }
+            Outcome::pass(hash_str(&text), false, vec!["reproducer".into()], text)
+        }
+    }
+}
+
 pub fn run(ctx: &Ctx) {
+    ctx.run_payloads("reproducer", reproducer);
     // corpus files that analyse cleanly on their own (each on a fresh thread)
     let mut files: Vec<(String, String)> = vec![];
     let mut rejected: BTreeMap<String, u64> = BTreeMap::new();
-    for f in vcore::util::corpus_files() {
-        let Ok(text) = std::fs::read_to_string(&f) else { continue };
-        let name = f.file_name().map(|s| s.to_string_lossy().to_string()).unwrap_or_default();
-        if !f.to_string_lossy().contains("testcases/veryl") {
-            continue;
-        }
-        match emit_with(&text, &Opts::default()) {
-            Ok(_) => files.push((name, text)),
-            Err(BuildErr::Parse(_)) => *rejected.entry("parse".into()).or_default() += 1,
-            Err(BuildErr::Analyze(_)) => *rejected.entry("needs other files".into()).or_default() += 1,
+    let all: Vec<(String, String)> = vcore::util::corpus_files()
+        .into_iter()
+        .filter(|f| f.to_string_lossy().contains("testcases/veryl"))
+        .filter_map(|f| {
+            let text = std::fs::read_to_string(&f).ok()?;
+            Some((f.file_name().map(|s| s.to_string_lossy().to_string()).unwrap_or_default(), text))
+        })
+        .collect();
+    let verdicts: Vec<Option<&'static str>> = std::thread::scope(|s| {
+        let hs: Vec<_> = all
+            .chunks(all.len().div_ceil(16).max(1))
+            .map(|chunk| {
+                s.spawn(move || {
+                    chunk
+                        .iter()
+                        .map(|(_, text)| match emit_with(text, &Opts::default()) {
+                            Ok(_) => None,
+                            Err(BuildErr::Parse(_)) => Some("parse"),
+                            Err(BuildErr::Analyze(_)) => Some("needs other files"),
+                        })
+                        .collect::<Vec<_>>()
+                })
+            })
+            .collect();
+        hs.into_iter().flat_map(|h| h.join().unwrap_or_default()).collect()
+    });
+    for ((name, text), v) in all.into_iter().zip(verdicts) {
+        match v {
+            None => files.push((name, text)),
+            Some(why) => *rejected.entry(why.into()).or_default() += 1,
         }
     }
     ctx.note("corpus_files_usable", json!(files.len()));
